@@ -373,7 +373,7 @@ func (c *StreamIterators) Init(id uint64, chunkDataOffset int64, schema record.S
 func (m *MmsTables) NewStreamIterators(group FilesInfo) *StreamIterators {
 	compItrs := getStreamIterators()
 	compItrs.closed = m.closed
-	compItrs.stopCompMerge = m.stopCompMerge
+	compItrs.stopCompMerge = m.stopCompMergeSignal()
 	compItrs.dropping = group.dropping
 	compItrs.name = group.name
 	compItrs.dir = m.path
